@@ -100,7 +100,9 @@ def pl_len_tag_info(pl):
         return len(b), tag, "v %d %d %d" % (pl.get("cur", 0), pl.get("max", 0), pl.get("status", 0))
     if k == "status":
         return len(b), tag, "s %d" % pl.get("code", 0)
-    return len(b), tag, "o"
+    # raw bytes: opaque unless the script says what a reference decoder sees in them ("_info", set by
+    # checks/client_c0809.py from the codec oracle's decoding of a first message)
+    return len(b), tag, pl.get("_info", "o")
 
 
 # ---------------------------------------------------------------- building scripts
@@ -780,15 +782,43 @@ def run_go(exe, scripts, shards=6, test="TestVerifClientScript", timeout=600):
                 res[k + j * shards] = o
             if rc != 0:
                 logs.append(log[-1500:])
-    # a watchdog hit poisons the rest of its shard ("skipped"): rerun those alone
+    # a watchdog hit poisons the rest of its shard ("skipped"), a crash of the test binary loses the
+    # rest of its shard: rerun those alone; a script that still gives nothing is marked as a crash
     redo = [i for i, o in enumerate(res) if o is None or o.get("st") == "skipped"]
-    for i in redo[:50]:
+    for i in redo[:60]:
         rc, lines, log = vlib.run_harness(exe, test, json.dumps(scripts[i]) + "\n", timeout=120, tag="_r%d" % i)
         try:
             res[i] = json.loads(lines[0]) if lines else None
         except ValueError:
             res[i] = None
+        if res[i] is None:
+            m = [ln for ln in log.split("\n") if ln.startswith("panic:") or ln.startswith("fatal error:")]
+            res[i] = dict(id=scripts[i].get("id"), st="crash", panic=(m[0] if m else ""), log=log[-1500:])
     return res, logs
+
+
+def crash_violation(res, pid, script, g):
+    """file the violation for a script that crashed the test binary / overran the watchdog"""
+    if g is not None and g.get("st") == "crash":
+        res.violation("client-panic", "the client crashed the process while running script %s: %s" % (
+            script.get("id"), g.get("panic") or g.get("log", "")[-300:]), dict(kind="script", script=script, log=g.get("log")))
+    elif g is not None and g.get("st") == "watchdog":
+        res.violation("client-hang", "script %s did not finish within the watchdog limit" % script.get("id"),
+                      dict(kind="script", script=script))
+    else:
+        res.violation("harness-run", "no observation for script %s" % script.get("id"), dict(kind="harness", script=script), False)
+
+
+def staged(exe, scripts, is_bad, probe=16):
+    """run a small probe first: if the property already fails there (or the harness misbehaves), only
+    the probe is kept — a badly broken client makes every script slow (each wait runs into its limit)"""
+    if len(scripts) <= probe:
+        return scripts
+    pg, _ = run_go(exe, scripts[:probe], shards=8)
+    for s, g in zip(scripts[:probe], pg):
+        if g is None or g.get("st") in ("crash", "watchdog", "skipped") or is_bad(s, g):
+            return scripts[:probe]
+    return scripts
 
 
 def run_model(scripts, filter_unsolicited):
@@ -800,11 +830,13 @@ def run_model(scripts, filter_unsolicited):
     return lines
 
 
-def shrink(script, still_fails, max_rounds=200):
-    """drop steps while [still_fails(script)] holds (greedy delta debugging over steps)"""
+def shrink(script, still_fails, max_rounds=200, budget_s=20.0):
+    """drop steps while [still_fails(script)] holds (greedy delta debugging over steps), within a time budget"""
+    import time
+    t0 = time.time()
     steps = list(script["steps"])
     i, rounds = 0, 0
-    while i < len(steps) and rounds < max_rounds:
+    while i < len(steps) and rounds < max_rounds and time.time() - t0 < budget_s:
         if steps[i]["op"] == "connect":
             i += 1
             continue
